@@ -466,8 +466,16 @@ impl C13 {
             dn.rtrace.clear();
         }
         let cap = op["cap"].as_u64().unwrap_or(0) as usize;
-        let mut store = vec![0u8; cap];
+        // `pre`: the caller's ReadBuf already holds `pre` bytes of earlier data (what `read_exact` / `read_to_end` do: one
+        // ReadBuf across several polls); the stream must append after them and leave them alone
+        let pre = op["pre"].as_u64().unwrap_or(0) as usize;
+        let marker: Vec<u8> = (0..pre).map(|i| 0xA5 ^ (i as u8)).collect();
+        let mut store = vec![0u8; pre + cap];
         let mut rb = io::ReadBuf::new(&mut store);
+        rb.put_slice(&marker);
+        if pre > 0 {
+            out.count("read:prefilled_buffer");
+        }
         let mut cx = Context::from_waker(Waker::noop());
         let stream = &mut sess.ends[1 - d];
         let res = catch(|| Pin::new(stream).poll_read(&mut cx, &mut rb));
@@ -481,7 +489,11 @@ impl C13 {
             Ok(Poll::Pending) => json!({"r": "pending"}),
             Ok(Poll::Ready(Err(e))) => json!({"r": "err", "kind": err_kind(&e)}),
             Ok(Poll::Ready(Ok(()))) => {
-                let got = rb.filled().to_vec();
+                if rb.filled().len() < pre || rb.filled()[..pre] != marker[..] {
+                    out.oracle_fail("c13.read.caller_buffer_clobbered", "poll_read shrank or overwrote the part of the caller's buffer that was already filled (a read_exact / read_to_end caller loses or corrupts earlier plaintext)",
+                        json!({"op": op, "filled_before": pre, "filled_after": rb.filled().len()}));
+                }
+                let got = rb.filled().get(pre..).map(|x| x.to_vec()).unwrap_or_default();
                 if got.is_empty() {
                     json!({"r": "eof"})
                 } else {
@@ -758,7 +770,13 @@ impl Gen {
         self.ops.push(json!({"op": "shutdown", "dir": d, "tw": tw, "fl": fl}));
     }
     fn read(&mut self, d: usize, cap: u64, tr: Vec<Value>) {
-        self.ops.push(json!({"op": "read", "dir": d, "cap": cap, "tr": tr}));
+        // a third of the reads come from a caller that keeps one ReadBuf across polls (earlier bytes already in it)
+        if self.rng.gen_range(0..3) == 0 {
+            let pre = *[1u64, 7, 1000, 70_000].choose(&mut self.rng).unwrap();
+            self.ops.push(json!({"op": "read", "dir": d, "cap": cap, "pre": pre, "tr": tr}));
+        } else {
+            self.ops.push(json!({"op": "read", "dir": d, "cap": cap, "tr": tr}));
+        }
     }
     /// write `len` bytes completely (repeating poll_write with a generous transport)
     fn write_all(&mut self, d: usize, len: u64) {
@@ -782,6 +800,33 @@ impl Gen {
     }
 
     // ---- families ----
+
+    /// receive-buffer alignment: several complete frames whose wire sizes (payload + 2 + 16) add up to exactly 2^16 or
+    /// to the reader's frame buffer size ± 1 arrive in one piece, with the beginning of the next frame right behind
+    /// them; the reader takes them out in small or large pieces
+    fn fam_alignment(&mut self) {
+        self.init();
+        let d = self.rng.gen_range(0..2);
+        let m = *[2u64, 4, 8, 16].choose(&mut self.rng).unwrap();
+        let delta: i64 = *[0i64, 0, 1, -1, 2].choose(&mut self.rng).unwrap();
+        for i in 0..m {
+            let mut p = (65536 / m) as i64 - 18;
+            if i == m - 1 {
+                p += delta;
+            }
+            self.write(d, p as u64, vec![json!(BIG), json!(BIG)]);
+            self.flush(d, vec![json!(BIG), json!(BIG), json!(BIG)], "ok");
+        }
+        let tail = self.rng.gen_range(1..=200u64);
+        self.write(d, tail, vec![json!(BIG), json!(BIG)]);
+        self.flush(d, vec![json!(BIG), json!(BIG), json!(BIG)], "ok");
+        let small = self.rng.gen_bool(0.5);
+        for _ in 0..m + 3 {
+            let cap = if small { 65536 / m } else { 100_000 };
+            self.ops.push(json!({"op": "read", "dir": d, "cap": cap, "tr": [BIG, BIG, BIG]}));
+        }
+        self.drain(d, true);
+    }
 
     /// benign random traffic in both directions
     fn fam_random(&mut self) {
@@ -1047,6 +1092,9 @@ impl Prop for C13 {
     fn gen(&mut self, opts: &Opts) -> Vec<Value> {
         let mut g = Gen { rng: opts.rng(), ops: vec![], frames: [0, 0], bytes: 0 };
         g.fam_every_position(false);
+        for _ in 0..6 {
+            g.fam_alignment();
+        }
         if opts.thorough {
             g.fam_every_position(true);
         }
@@ -1057,6 +1105,7 @@ impl Prop for C13 {
                 9 => g.fam_full_payload(),
                 10..=11 => g.fam_partial_flush(),
                 12 => g.fam_errors(),
+                13 if i % 40 == 13 => g.fam_alignment(),
                 _ => {
                     let t = g.random_tamper();
                     let nframes = g.rng.gen_range(1..=3);
